@@ -116,7 +116,10 @@ def oracle(case):
         if not ps / ps_on <= lim * allow * (1.011 if allow == 1.0 else 1.0):
             viol.append(V("sidelobe_real_sinusoid", dB=10 * math.log10(max(ps / ps_on, 1e-300)), required=-(P - 1), P=P, L=L,
                           b0=b0, b=b, offset=d1, image_offset=d2, order=order, strict=allow == 1.0, backend=case["backend"]))
-    if not viol and not (abs(on / (A * A * W0 * W0) - 1) <= (1e-9 if order == -1 else 1e-2)):
+    from .. import tol as _tol
+    om0 = 2 * np.pi * b0 / L
+    on_tol = 1e-9 + _tol.C * _tol.EPS * L * _tol.growth(L, om0)      # rounding budget of the recurrence at length L
+    if not viol and not (abs(on / (A * A * W0 * W0) - 1) <= (on_tol if order == -1 else 1e-2)):
         viol.append(V("on_frequency_response", got=on, expected=A * A * W0 * W0, P=P, L=L))
     return Res(viol, nontrivial, sorted(set(labels)), {"worst_sidelobe_dB_above_-P": worst})
 
